@@ -112,7 +112,7 @@ def features(m: M.MDoc) -> set[str]:
                 for x in _values(n.value):
                     if isinstance(x, M.MMap) and any(k in RESERVED_KEYS for k, _ in x.pairs):
                         f.add("reserved-word-key")
-                    if isinstance(x, M.MMap) and any(k in ("REGEX", "PATTERN") for k, _ in x.pairs):
+                    if isinstance(x, M.MMap) and any(k in CONSTRUCTOR_KEYS for k, _ in x.pairs):
                         f.add("constructor-key-in-map")
             if isinstance(n, M.MBareZone):
                 if i != 0 or not last or lc:
@@ -146,6 +146,8 @@ def features(m: M.MDoc) -> set[str]:
     walk_dups(m.body)
     return f
 
+
+CONSTRUCTOR_KEYS = ("REGEX", "ENUM", "TYPE", "PATTERN", "NEVER", "ALWAYS")  # parser.KNOWN_CONSTRUCTORS
 
 KNOWN_FEATURES = {
     "frontmatter+sentinel", "empty-nested-block-with-sibling", "col0-comment-after-indented-body", "comment-after-empty-top-block", "reserved-word-key",
